@@ -320,7 +320,16 @@ def make(sx, kind, pfx=""):
     if kind == "AGF":
         subs = []
         for i in range(sx.pick("nsub", [0, 1, 2])):
-            k = sx.pick("sub%d.kind" % i, ["UI", "I", "RR", "CC"])
+            k = sx.pick("sub%d.kind" % i, ["UI", "I", "RR", "CC", "UI-long"])
+            if k == "UI-long":
+                # sub-PDU lengths whose 16-bit length field looks like a
+                # PDU header of another type (bits 9..6), both sides of the
+                # 128/192 and 1152 boundaries
+                n = sx.pick("sub%d.len" % i, [125, 126, 189, 190, 1150])
+                subs.append(pdu.UnnumberedInformation(
+                    sx.int("sub%d.dsap" % i, 0, 63), sx.int("sub%d.ssap" % i, 0, 63),
+                    sx.bytes("sub%d.data" % i, n)))
+                continue
             subs.append(make(sx, k, "sub%d." % i))
         return pdu.AggregatedFrame(0, 0, subs)
     raise ValueError(kind)
@@ -403,7 +412,7 @@ def partitions(tier):
 MUST_REACH = ["decode_error", "decoded", "agf_decoded", "agf_rejected"] + \
     ["roundtrip:" + k for k in KINDS]
 BOUNDS = {
-    "quick": "encode->decode: all 14 PDU classes, every field symbolic over its full valid range, payload/name lengths from {0,1,2,3,4,9,64,254,255}; decode->encode->decode: every byte string of length 0..6 (16 type nibbles x lengths); aggregates of 2-3 sub-PDUs of 2..5 symbolic bytes",
+    "quick": "encode->decode: all 14 PDU classes, every field symbolic over its full valid range, payload/name lengths from {0,1,2,3,4,9,64,254,255}; decode->encode->decode: every byte string of length 0..6 (16 type nibbles x lengths); aggregates of 2-3 sub-PDUs of 2..5 symbolic bytes; encoded aggregates of 0..2 sub-PDUs incl. UI sub-PDUs of 127/128/191/192/1152 octets (length field resembling a header)",
     "thorough": "as quick with byte strings of length 0..10 and aggregates up to 9 sub-PDU bytes",
 }
 OUTSIDE = ["byte strings longer than the bound", "payloads longer than 9 bytes except names of 254/255",
